@@ -138,6 +138,15 @@ var curatedGrammars = []string{
 	"s = T B C D E F G H I J A K", "s = A B C D E F G H I J K L M N O P Q R S T U V | V U T S R Q P O N M L K J I H G F E D C B A",
 }
 
+// reinjectGrammars: productions `@e TOKEN` whose action calls recoverLookahead(TOKEN, tok) (the token that ended the
+// skipped stretch also starts the next construct). The Lean runtime model has no recoverLookahead: these packages run
+// under the property oracles only (bounds of every reduction on recovery paths, termination, no panic).
+var reinjectGrammars = []string{
+	"s = item*; item = A SEMI | LB s RB | @e LB",
+	"s = stmt*; stmt = ID SEMI | blk | @e LB; blk = LB stmt* RB",
+	"s = item+ END; item = A | LP item RP | @e LP",
+}
+
 // more than 256 terminals and more than 256 states: numbers that differ by a multiple of 256 in the
 // parser tables (row-sharing keys, byte-sized encodings)
 func init() {
